@@ -22,7 +22,8 @@ PROP_RULES = {
             "AwaitResultNotDropped", "FilterIsVerdict", "SelectOpen"},
     "C15": {"NoWorkerCrash", "NoInternalError", "FailureContained", "AwaitersFail", "ResultStable"},
     "C13": {"RefsUnique"},
-    "C14": {"UseOnlyByOwner", "NeverReachesBackend", "NoCloseWhileOwnerAlive", "ClosedExactlyOnceAtExit"},
+    "C14": {"UseOnlyByOwner", "NeverReachesBackend", "NoCloseWhileOwnerAlive", "ClosedExactlyOnceAtExit", "OwnerCanUse",
+            "ContentPreserved"},
     "C06": {"Counted", "NoReachableFreed", "FreeList", "NoOrphan", "ContentStable", "ContentPreserved",
             "RefcountAssertion"},
 }
@@ -63,7 +64,7 @@ def model_check(s, prop, workers=4, timeout=900):
     extra = None
     expected_outcome = None
     expected_results = None
-    if prop in ("C03", "C06") and s.get("confluent"):
+    if prop in ("C03", "C06", "C14") and s.get("confluent"):
         # pass 1: one simulated behaviour fixes the expected canonical results
         cfg1 = os.path.join(WORK, "mc1_%s.cfg" % tag)
         write_cfg(cfg1, ["DumpExpected"])
